@@ -94,6 +94,9 @@ pub enum Framing {
         cuts: Vec<usize>,
         compressed: bool,
         size_field: bool,
+        /// announce, as real servers do, the size at which the reply was actually split (the largest fragment payload:
+        /// every fragment but the last is exactly that long when the cuts are even) instead of the default 1248
+        exact_size: bool,
         id: u32,
     },
     /// GoldSrc split (nibble header)
@@ -252,6 +255,7 @@ pub fn frame(payload: &[u8], framing: &Framing) -> Vec<Vec<u8>> {
             cuts,
             compressed,
             size_field,
+            exact_size,
             id,
         } => {
             let (wire, id, extra) = if *compressed {
@@ -274,6 +278,7 @@ pub fn frame(payload: &[u8], framing: &Framing) -> Vec<Vec<u8>> {
             };
             let parts = cut(&wire, &cuts);
             let total = parts.len() as u8;
+            let announced: u16 = if *exact_size { parts.iter().map(|p| p.len()).max().unwrap_or(1248).min(0xffff) as u16 } else { 1248 };
             parts
                 .iter()
                 .enumerate()
@@ -283,7 +288,7 @@ pub fn frame(payload: &[u8], framing: &Framing) -> Vec<Vec<u8>> {
                     d.push(total);
                     d.push(n as u8);
                     if *size_field {
-                        d.extend_from_slice(&1248u16.to_le_bytes());
+                        d.extend_from_slice(&announced.to_le_bytes());
                     }
                     if n == 0 {
                         if let Some(e) = &extra {
